@@ -1,5 +1,6 @@
 /- Model/C06Gen.lean — the C06 model instantiated with the facts the translator extracted. -/
 import PsutilModel.Model.C06
+import PsutilModel.Model.C06Ext
 import PsutilModel.Generated.C06
 namespace Psutil.C06
 
@@ -33,5 +34,18 @@ def cfg : Cfg :=
     ctxKey := Gen.C06.ctxKey
     ctxAnchored := Gen.C06.ctxAnchored
     statuses := Gen.C06.statuses }
+
+/-- configuration of the code around the parsers (Model/C06Ext.lean) -/
+def xcfg : XCfg :=
+  { tmapGlobs := Gen.C06.tmapGlobs
+    tmapSkipsVanished := Gen.C06.tmapSkipsVanished
+    tmapChecksChr := Gen.C06.tmapChecksChr
+    tmapMemoized := Gen.C06.tmapMemoized
+    btimeKey := Gen.C06.btimeKey
+    btimeIdx := Gen.C06.btimeIdx
+    createUsesCachedBoot := Gen.C06.createUsesCachedBoot
+    threadsSorts := Gen.C06.threadsSorts
+    threadsSkipsVanished := Gen.C06.threadsSkipsVanished
+    threadsChecksAlive := Gen.C06.threadsChecksAlive }
 
 end Psutil.C06
